@@ -37,17 +37,20 @@ def load(R):
     R.spec("NAMES_OK", ["pn"], "forall(int, lambda i: implies(0 <= i and i < len(pn), isinstance(pn[i], str) and name_index(pn, pn[i]) == i))")
     R.spec("IN_PN", ["pn", "k"], "0 <= name_index(pn, k) and name_index(pn, k) < len(pn) and pn[name_index(pn, k)] == k")
     R.spec("POS", ["pn", "k"], "name_index(pn, k)")
-    # bound by the partial application
-    R.spec("B1", ["f", "k"], "k in PK(f) or (IN_PN(PN(f), k) and POS(PN(f), k) < len(PA(f)))")
-    R.spec("V1", ["f", "k"], "PA(f)[POS(PN(f), k)] if (IN_PN(PN(f), k) and POS(PN(f), k) < len(PA(f))) else PK(f)[k]")
+    # From the property ("invariant under positional versus keyword passing, partial application"): moving an argument of a call into a partial
+    # application must not change what it binds --  f.partial(*pa, **pk)(*a, **k)  binds what  f(*pa, *a, **pk, **k)  binds.  Positional
+    # arguments, those of the partial application first, then those of the call, fill in order the parameters that no PARTIAL KEYWORD binds.
+    R.spec("B1", ["f", "k"], "k in PK(f)")
+    R.spec("NPOS", ["f"], "len(PA(f)) + len(f.args)")
+    R.spec("POSV", ["f", "r"], "PA(f)[r] if r < len(PA(f)) else f.args[r - len(PA(f))]")
     def sp_free_rank(ex, n):
         """free_rank(f, p): how many of the first p parameters the partial application leaves unbound -- the specification's own
         definition (recurrence over the parameter list).  When the code computes the list of remaining parameters with a filter
-        comprehension (local `remaining_parameter_names`), the comprehension's rank IS this function provided its recurrence matches
+        comprehension (local `unbound_parameter_names`), the comprehension's rank IS this function provided its recurrence matches
         (proved as a separate clause); otherwise the uninterpreted function with its defining recurrence is used and verdicts need
         native confirmation (the code was restructured)."""
         f, p_ = ex.ev(n.args[0]), ex.ev(n.args[1])
-        local = ex.st.env.get("remaining_parameter_names")
+        local = ex.st.env.get("unbound_parameter_names")
         lst = ex.cont(local) if isinstance(local, VCont) else None
         if lst is not None and getattr(lst, "rank", None) is not None:
             ex.touch(TInt, p_.t)
@@ -74,25 +77,28 @@ def load(R):
                requires=["NAMES_OK(PN(self))"],
                ensures=[
                    # BIND: which names are bound ...
-                   "forall(str, lambda k: (k in result) == (k in self.kwargs or B1(self, k) or (IN_PN(PN(self), k) and not B1(self, k) and free_rank(self, POS(PN(self), k)) < len(self.args))))",
-                   # ... and to what: call keyword > positional > partial positional > partial keyword
+                   "forall(str, lambda k: (k in result) == (k in self.kwargs or k in PK(self) or (IN_PN(PN(self), k) and k not in PK(self) and free_rank(self, POS(PN(self), k)) < NPOS(self))))",
+                   # ... and to what: call keyword > positional (partial positionals first, then the call's) > partial keyword
                    "forall(str, lambda k: implies(k in self.kwargs, same(result[k], self.kwargs[k])))",
-                   "forall(str, lambda k: implies(k not in self.kwargs and IN_PN(PN(self), k) and not B1(self, k) and free_rank(self, POS(PN(self), k)) < len(self.args), "
-                   "same(result[k], self.args[free_rank(self, POS(PN(self), k))])))",
-                   "forall(str, lambda k: implies(k not in self.kwargs and B1(self, k), same(result[k], V1(self, k))))",
-                   # the r-th free parameter is the r-th parameter (in signature order) that the partial application leaves unbound
-                   "forall(int, lambda p: implies(0 <= p and p < len(PN(self)), free_rank(self, p + 1) == free_rank(self, p) + (0 if B1(self, PN(self)[p]) else 1)))",
+                   "forall(str, lambda k: implies(k not in self.kwargs and IN_PN(PN(self), k) and k not in PK(self) and free_rank(self, POS(PN(self), k)) < NPOS(self), "
+                   "same(result[k], POSV(self, free_rank(self, POS(PN(self), k))))))",
+                   "forall(str, lambda k: implies(k not in self.kwargs and k in PK(self), same(result[k], PK(self)[k])))",
+                   # the r-th positional parameter is the r-th parameter (in signature order) that no partial keyword binds
+                   "forall(int, lambda p: implies(0 <= p and p < len(PN(self)), free_rank(self, p + 1) == free_rank(self, p) + (0 if PN(self)[p] in PK(self) else 1)))",
                    "free_rank(self, 0) == 0"],
-               raises={"ValueError": ["len(PN(self)) < len(PA(self)) or True"]},
-               loops={1: ["forall(str, lambda k: (k in result) == (k in PK(self) or (IN_PN(PN(self), k) and POS(PN(self), k) < loop_i)))",
-                          "forall(str, lambda k: implies(IN_PN(PN(self), k) and POS(PN(self), k) < loop_i, same(result[k], PA(self)[POS(PN(self), k)])))",
-                          "forall(str, lambda k: implies(k in PK(self) and not (IN_PN(PN(self), k) and POS(PN(self), k) < loop_i), same(result[k], PK(self)[k])))",
-                          "len(PN(self)) >= len(PA(self))"],
-                      3: ["forall(str, lambda k: (k in result) == (B1(self, k) or (IN_PN(PN(self), k) and not B1(self, k) and free_rank(self, POS(PN(self), k)) < loop_i)))",
-                          "forall(str, lambda k: implies(IN_PN(PN(self), k) and not B1(self, k) and free_rank(self, POS(PN(self), k)) < loop_i, "
-                          "same(result[k], self.args[free_rank(self, POS(PN(self), k))])))",
-                          "forall(str, lambda k: implies(B1(self, k), same(result[k], V1(self, k))))",
-                          "len(remaining_parameter_names) >= len(self.args)"]})
+               raises={"ValueError": []},
+               loops={2: ["forall(str, lambda k: (k in result) == (k in PK(self) or (IN_PN(PN(self), k) and k not in PK(self) and free_rank(self, POS(PN(self), k)) < loop_i)))",
+                          "forall(str, lambda k: implies(IN_PN(PN(self), k) and k not in PK(self) and free_rank(self, POS(PN(self), k)) < loop_i, "
+                          "same(result[k], PA(self)[free_rank(self, POS(PN(self), k))])))",
+                          "forall(str, lambda k: implies(k in PK(self), same(result[k], PK(self)[k])))",
+                          "len(unbound_parameter_names) >= len(PA(self))"],
+                      3: ["forall(str, lambda k: (k in result) == (k in PK(self) or (IN_PN(PN(self), k) and k not in PK(self) and free_rank(self, POS(PN(self), k)) < len(PA(self)) + loop_i)))",
+                          "forall(str, lambda k: implies(IN_PN(PN(self), k) and k not in PK(self) and free_rank(self, POS(PN(self), k)) < len(PA(self)) + loop_i, "
+                          "same(result[k], POSV(self, free_rank(self, POS(PN(self), k))))))",
+                          "forall(str, lambda k: implies(k in PK(self), same(result[k], PK(self)[k])))",
+                          "len(remaining_parameter_names) >= len(self.args)", "len(unbound_parameter_names) >= len(PA(self))"]},
+               # remaining_parameter_names is a slice of the filter comprehension: element -> slice index -> comprehension index -> source index
+               labels={})
     load_more(R)
     load_encode(R)
     load_init(R)
